@@ -72,7 +72,12 @@ LDVals == [attrs |-> AttrLists, delim |-> Delims, mbox |-> Mboxes, child |-> {<<
 LDs == Cover(LDBase, LDVals, {"mbox", "child", "old"})
 WithSt(ld, sd) == [ld EXCEPT !.status = <<[sd EXCEPT !.mbox = ld.mbox]>>]
 StItems == <<"MESSAGES", "UNSEEN">>
-ListCases ==
+\* lp: which (reference, pattern) the caller asks with - "" "*", "" "%", "Work" "%", "Work/2024" "Q1", "" "INBOX".  What the
+\* backend writes is delivered whatever was asked (matching is the backend's business: RFC 3501 6.3.8 leaves the
+\* interpretation of the reference to the server).
+ListPatterns == 0..4
+WithLp(cs) == {[lc EXCEPT !.req = [st |-> lc.req.st, lp |-> n]] : lc \in cs, n \in ListPatterns}
+ListCases0 ==
   {[req |-> [st |-> <<>>], data |-> <<ld>>] : ld \in LDs}
   \cup {[req |-> [st |-> <<>>], data |-> <<LDBase, [LDBase EXCEPT !.mbox = MbINBOX], [LDBase EXCEPT !.mbox = MbU8]>>],
         [req |-> [st |-> <<>>], data |-> <<>>],
@@ -91,6 +96,7 @@ ListCases ==
            <<WithSt([LDBase EXCEPT !.mbox = Mbinbox], StatusBase(MbWork)),
              WithSt([LDBase EXCEPT !.mbox = MbU8], [StatusBase(MbWork) EXCEPT !.msgs = <<U32MAX>>]),
              WithSt(LDBase, [StatusBase(MbWork) EXCEPT !.unseen = <<0>>])>>}}
+ListCases == WithLp(ListCases0)
 
 (* --- SELECT -------------------------------------------------------------- *)
 FlagLists == {<<>>, <<Fd("~b:Seen", "~b:seen")>>,
